@@ -42,7 +42,8 @@ Inductive err := EAccessDenied | ELimitsExceeded | ENotSupported | ENoReply | EN
 
 (* what a connection reads from its socket *)
 Inductive omsg :=
-| OFwd (from : N) (m : msg)        (* message [m] forwarded, SENDER := unique name of [from] *)
+| OFwd (from : N) (m : msg)        (* message [m] forwarded to its addressed recipient, SENDER := unique name of [from] *)
+| OEav (from : N) (m : msg)        (* the same message copied to a connection because one of its eavesdrop match rules matches *)
 | OErr (e : err) (rs : N)          (* error from the bus, REPLY_SERIAL = rs *)
 | ODrv (rs : N) (code : N).        (* method return from the bus driver (RequestName / ReleaseName result) *)
 
@@ -59,14 +60,18 @@ Record cfg := mkCfg {
   max_replies : N;             (* limits.max_replies_per_connection *)
   reply_timeout : option N }.  (* limits.reply_timeout in ms; None = -1 (never) *)
 
+(* BusMatchRule, the subset used here: eavesdrop='true'?, type=, sender=, destination= *)
+Record rule := mkRule { r_eaves : bool; r_type : option mtype; r_sender : option dest; r_dest : option dest }.
+
 Record state := mkState {
   st_conns : list conn;                     (* active connections *)
   st_next : N;                              (* next unique-name number *)
   st_names : list (N * list owner);         (* registry: well-known name -> owner queue, primary first; queues are non-empty *)
   st_pend : list pend;                      (* connections->pending_replies->items, first link first *)
-  st_now : N }.                             (* monotonic clock, ms *)
+  st_now : N;                               (* monotonic clock, ms *)
+  st_rules : list (N * rule) }.             (* matchmaker: (owner, rule) *)
 
-Definition init : state := mkState [] 0 [] [] 0.
+Definition init : state := mkState [] 0 [] [] 0 [].
 
 Inductive event :=
 | EConnect (fds : bool)                                   (* new connection, authenticated, Hello done *)
@@ -74,7 +79,8 @@ Inductive event :=
 | EDisconnect (c : N)                                     (* c's socket closes *)
 | ETick (d : N)                                           (* d ms pass with the bus idle *)
 | ERequestName (c : N) (serial : N) (n : N) (allow replace dnq : bool)
-| EReleaseName (c : N) (serial : N) (n : N).
+| EReleaseName (c : N) (serial : N) (n : N)
+| EAddMatch (c : N) (serial : N) (rl : rule).
 
 (* ---------------------------------------------------------------- connections *)
 Definition find_conn (cs : list conn) (c : N) : option conn := find (fun x => c_id x =? c) cs.
@@ -243,11 +249,42 @@ Fixpoint drop_pending (pl : list pend) (c : N) : list pend :=
                    end
   end.
 
+(* ---------------------------------------------------------------- match rules (eavesdropping on unicast traffic) *)
+Definition mtype_eqb (a b : mtype) : bool :=
+  match a, b with TCall, TCall | TReturn, TReturn | TError, TError | TSignal, TSignal => true | _, _ => false end.
+
+(* match_rule_matches (bus/signals.c) for a message WITH a destination: a rule without eavesdrop='true' never matches
+   (both branches of the destination test return FALSE); sender= / destination= are compared through
+   connection_is_primary_owner, i.e. through the registry *)
+Definition rule_matches (st : state) (rl : rule) (c r : N) (m : msg) : bool :=
+  r_eaves rl &&
+  (match r_type rl with None => true | Some t => mtype_eqb t (m_type m) end) &&
+  (match r_sender rl with None => true | Some d => match resolve st d with Some x => x =? c | None => false end end) &&
+  (match r_dest rl with None => true | Some d => match resolve st d with Some x => x =? r | None => false end end).
+
+(* get_recipients_from_list with bus_connection_mark_stamp: [seen] are the connections already stamped *)
+Fixpoint eav_list (st : state) (rules : list (N * rule)) (c r : N) (m : msg) (seen : list N) : list N :=
+  match rules with
+  | [] => []
+  | (o, rl) :: rest =>
+      if rule_matches st rl c r m && negb (existsb (N.eqb o) seen) then o :: eav_list st rest c r m (o :: seen)
+      else eav_list st rest c r m seen
+  end.
+
+(* bus_matchmaker_get_recipients: the addressed recipient is stamped first ("already receiving the message") *)
+Definition eavesdroppers (st : state) (c r : N) (m : msg) : list N := eav_list st (st_rules st) c r m [r].
+
+(* send_one_message: bus_context_check_security_policy with proposed <> addressed recipient (requested_reply = FALSE, no
+   table access), silently dropped when refused: the restrictive policy has no eavesdrop="true" rule; fd capability *)
+Definition eav_out (cf : cfg) (st : state) (c r : N) (m : msg) : out :=
+  map (fun e => (e, OEav c m))
+      (filter (fun e => negb (restrictive cf) && negb ((0 <? m_nfds m) && negb (conn_fds st e))) (eavesdroppers st c r m)).
+
 (* ---------------------------------------------------------------- steps *)
 Definition set_pend (st : state) (pl : list pend) : state :=
-  mkState (st_conns st) (st_next st) (st_names st) pl (st_now st).
+  mkState (st_conns st) (st_next st) (st_names st) pl (st_now st) (st_rules st).
 Definition set_names (st : state) (nm : list (N * list owner)) : state :=
-  mkState (st_conns st) (st_next st) nm (st_pend st) (st_now st).
+  mkState (st_conns st) (st_next st) nm (st_pend st) (st_now st) (st_rules st).
 
 (* bus_dispatch, "route to named service" branch, then bus_dispatch_matches and the out: label *)
 Definition dispatch (cf : cfg) (st : state) (c : N) (m : msg) : state * out :=
@@ -260,19 +297,19 @@ Definition dispatch (cf : cfg) (st : state) (c : N) (m : msg) : state * out :=
     | Some e => (st', [(c, OErr e (m_serial m))])
     | None => if (0 <? m_nfds m) && negb (conn_fds st r)
               then (st', [(c, OErr ENotSupported (m_serial m))])
-              else (st', [(r, OFwd c m)])
+              else (st', (r, OFwd c m) :: eav_out cf st c r m)
     end
   end.
 
 Definition disconnect (cf : cfg) (st : state) (c : N) : state * out :=
   let conns := filter (fun x => negb (c_id x =? c)) (st_conns st) in
   let '(pl, o) := expire_pass cf (st_now st) (drop_pending (st_pend st) c) in
-  (mkState conns (st_next st) (names_drop (st_names st) c) pl (st_now st), o).
+  (mkState conns (st_next st) (names_drop (st_names st) c) pl (st_now st) (filter (fun x => negb (fst x =? c)) (st_rules st)), o).
 
 Definition tick (cf : cfg) (st : state) (d : N) : state * out :=
   let now := st_now st + d in
   let '(pl, o) := expire_pass cf now (st_pend st) in
-  (mkState (st_conns st) (st_next st) (st_names st) pl now, o).
+  (mkState (st_conns st) (st_next st) (st_names st) pl now (st_rules st), o).
 
 (* an event is well-formed when its actor is connected, serials are non-zero and fds are only sent by
    connections that negotiated them; other events are not expressible on a socket and are no-ops here *)
@@ -284,13 +321,14 @@ Definition wf_event (st : state) (e : event) : bool :=
   | ETick _ => true
   | ERequestName c s _ _ _ _ => connected st c && negb (s =? 0)
   | EReleaseName c s _ => connected st c && negb (s =? 0)
+  | EAddMatch c s _ => connected st c && negb (s =? 0)
   end.
 
 Definition step (cf : cfg) (st : state) (e : event) : state * out :=
   if negb (wf_event st e) then (st, []) else
   match e with
   | EConnect fds =>
-      (mkState (st_conns st ++ [mkConn (st_next st) fds]) (st_next st + 1) (st_names st) (st_pend st) (st_now st), [])
+      (mkState (st_conns st ++ [mkConn (st_next st) fds]) (st_next st + 1) (st_names st) (st_pend st) (st_now st) (st_rules st), [])
   | ESend c m => dispatch cf st c m
   | EDisconnect c => disconnect cf st c
   | ETick d => tick cf st d
@@ -301,6 +339,8 @@ Definition step (cf : cfg) (st : state) (e : event) : state * out :=
   | EReleaseName c s n =>
       let '(nm, code) := release (st_names st) c n in
       (set_names st nm, [(c, ODrv s code)])
+  | EAddMatch c s rl =>          (* bus_driver_handle_add_match: the rule is stored, empty method return *)
+      (mkState (st_conns st) (st_next st) (st_names st) (st_pend st) (st_now st) (st_rules st ++ [(c, rl)]), [(c, ODrv s 0)])
   end.
 
 (* a run: the trace lists (event, output) pairs, OLDEST LAST (head = most recent step) *)
